@@ -40,6 +40,8 @@ T = TypeVar("T")
 
 
 def _is_del_mark(val) -> bool:
+    if isinstance(val, np.ndarray) and val.shape == () and val.dtype.kind == "V":
+        val = val[()]  # same value given as 0-dim. array (it is stored as the same opaque scalar)
     return isinstance(val, np.void) and val.tobytes() == DEL_VALUE.tobytes()
 
 
